@@ -1,5 +1,5 @@
 (* Property C07 — numeric expressions evaluate to their arithmetic value. *)
-From BA Require Import Base Expr ExprProofs.
+From BA Require Import ExprParseProofs Base Expr ExprProofs.
 
 (* BYTEn(x) / LSB(x) return byte n of the two's-complement representation of x, for every x and n >= 0 *)
 Theorem C07_byte_n : forall x n : Z, 0 <= n -> byte_n x n = (x / 2 ^ (8 * n)) mod 256.
@@ -28,3 +28,11 @@ Print Assumptions C07_division_by_zero_rejected.
 Theorem C07_unknown_label_rejected : forall rho s, rho s = None -> eval rho (ELabel s) = Rejected.
 Proof. exact eval_unknown_label. Qed.
 Print Assumptions C07_unknown_label_rejected.
+
+(* precedence and associativity: every expression tree is read back from its token sequence printed with brackets only
+   where the tree's shape deviates from   & | ^  <  << >>  <  + -  <  * / %  <  unary minus, functions, brackets   and
+   left associativity (the printer `pr` is in ExprParseProofs.v).  The parser is a function, so that reading is the
+   only one. *)
+Theorem C07_parser_reads_back_every_tree : forall e, parse_tokens (pr 0 e) = Ok e.
+Proof. exact parse_print_roundtrip. Qed.
+Print Assumptions C07_parser_reads_back_every_tree.
